@@ -38,6 +38,9 @@ TRUSTED = ['A-RANGE-BODY', 'A-EXECUTOR', 'A-FILE']
 ASSUMPTIONS = TRUSTED
 EXPLANATION = 'download byte exactness by loop invariants over views of the object'
 
+from .b_legacy import LEGACY_C02
+ROOTS = ROOTS + LEGACY_C02
+
 
 def register(R):
     pass
